@@ -219,7 +219,7 @@ def run(prop, tier):
                 add("memcheck-search", exe, [], nsearch, NCPU, seed + 15485863)
             for i in range(n0, len(jobs)):
                 k, o, c = jobs[i]
-                jobs[i] = (k, o, vg + c)
+                jobs[i] = (k, o, vg + c + ["--max-violations", "2"])
         jobs2 = []
         jobs_bak = jobs
         jobs = jobs2
